@@ -1,12 +1,21 @@
 (* C18 - Legacy parent-aware trees stay structurally consistent through any history.
-   ONLY statements; proofs are `exact <lemma of Proofs/LegacyProofs.v>`.
+   ONLY statements; proofs are `exact <lemma of Proofs/Legacy*.v>`.
 
    STATUS: NOT a proof of the property.  pyoak's deprecated legacy code violates C18 (witnesses below, machine
-   checked on the model that the correspondence run ties to the code).  The invariant Inv = RegOk /\ LInv
-   (Spec/LegacySpec.v) is proved to hold initially and to be preserved by detach_self ONLY; preservation by
-   construct / attach / detach / duplicate (where the code is believed right) is NOT proved, hence every theorem about
-   the invariant is `_partial`.  Also proved: the reading of the queries against the stored structure, the
-   refutations, the inadmissibility of child.replace_with(its parent).  See design.d/C18.md. *)
+   checked on the model that the correspondence run ties to the code).
+   Round 1: Inv = RegOk /\ LInv (Spec/LegacySpec.v) holds initially and is preserved by detach_self.
+   Round 2 (second half of this file): the strengthened invariant Inv2 = Inv + Rank + PidOk (Spec/LegacySpec2.v)
+   holds in the empty world, implies Inv, and is preserved by every SUCCESSFUL constructor (all three flags), attach,
+   detach, detach_self, duplicate (both modes), calculate_xpath, and by the constructor rejections that leave only
+   the dead cell - the constructor and attach under guards that exclude exactly the inputs of the open findings
+   C18:New:child-detached (a detached node below the new node shares the id of one of its ancestors there),
+   C18:Attach:content-id (a stale cached content_id on a detached node that is being re-attached) and the
+   inadmissible inputs (one node object at two positions).  History level: Inv2 holds in every state of every
+   history made of such guarded steps (C18_inv_history_partial); replace() and replace_with(None) are covered for a
+   receiver without a parent only.  NOT covered: replace / replace_with of a node that has a parent,
+   replace_with(node), the two transformation classes (where most findings live), and the rejections raised while
+   attaching (C19).
+   Every theorem about the invariant is therefore `_partial`.  See design.d/C18.md. *)
 From Oak Require Import Spec.LegacySpec Proofs.LegacyProofs Proofs.LegacyInv.
 From Coq Require Import List String Ascii ZArith Bool Arith.
 Import ListNotations.
@@ -81,3 +90,129 @@ Theorem C18_inadmissible_replace_with_own_parent :
   exists s, run_ok empty_st h_L8 = Some s /\ snd (step Hid ct0 s (OReplaceWith 0 (Some 1))) = RDiv /\
             admissible Hid ct0 s (OReplaceWith 0 (Some 1)) = false.
 Proof. exact replace_with_own_parent_diverges. Qed.
+
+(* ====================================================================================================== *)
+(* Round 2: the strengthened invariant Inv2 (Spec/LegacySpec2.v) and the guarded step / history theorems   *)
+(* ====================================================================================================== *)
+From Oak Require Import Spec.LegacySpec2 Proofs.LegacyHistory Proofs.LegacyStep Proofs.LegacyExamples.
+
+(* 1. Inv2 = RegOk /\ Rank (child addresses are smaller than their parent's: acyclicity, makes the fuel of
+      tree_cid irrelevant) /\ PidOk (no dead stored parent id) /\ LInv: holds initially, implies Inv *)
+Theorem C18_inv2_init_partial : forall H ct, Inv2 H ct empty_st.
+Proof. exact inv2_empty. Qed.
+Theorem C18_inv2_implies_inv_partial : forall H ct s, Inv2 H ct s -> Inv H ct s.
+Proof. exact inv2_inv. Qed.
+
+(* 2. a successful constructor over existing children preserves Inv2, for all combinations of ensure_unique_id /
+      create_as_duplicate / create_detached.  Guards: the children exist (kids_live); and, when the node is attached
+      (create_detached = False), new_guard: the tree of the new node is a tree (premise of C18), no node below it
+      that was detached before the call shares its id with one of its ancestors in that tree (otherwise
+      _attach_inner registers the ancestor over it: open finding C18:New:child-detached), and the cached content_id
+      of every such detached node was up to date (attach does not recompute: C18:Attach:content-id).
+      Children that are attached roots need nothing; a child that has another parent makes the call fail. *)
+Theorem C18_inv_step_construct_partial : forall H ct s cls org fs idarg eu ad cd s' r,
+  Inv2 H ct s -> kids_live s fs -> step H ct s (ONew cls org fs idarg eu ad cd) = (s', RNode r) ->
+  (cd = false -> new_guard H ct s s' r) -> Inv2 H ct s'.
+Proof. exact inv2_step_new. Qed.
+(* ... and so does a constructor rejected for duplicate children or an id collision (only the dead cell is left) *)
+Theorem C18_inv_step_construct_rejected_partial : forall H ct s cls org fs idarg eu ad cd s' e,
+  Inv2 H ct s -> kids_live s fs -> step H ct s (ONew cls org fs idarg eu ad cd) = (s', RErr e) ->
+  e = EDup \/ e = EIdc -> Inv2 H ct s'.
+Proof. exact inv2_step_new_rejected. Qed.
+Example C18_inv_step_construct_example :
+  Inv2 Hid ct0 x_s2 /\ detached x_s2 0 = true /\
+  kids_live x_s2 [(lit "req", FOne (Some 0)); (lit "opt", FOne None); (lit "tup", FSeq [])] /\
+  step Hid ct0 x_s2 x_o3 = (x_s3, RNode 1) /\ new_guard Hid ct0 x_s2 x_s3 1 /\
+  detached x_s3 0 = false /\ parent x_s3 0 = Some 1.
+Proof. exact x_example_construct. Qed.
+Example C18_inv_step_construct_rejected_example :
+  Inv2 Hid ct0 x_s7 /\ step Hid ct0 x_s7 x_o8 = (x_s8, RErr EDup) /\ List.length (heap x_s8) = 5.
+Proof. exact x_example_new_rejected. Qed.
+
+(* 3. detach() (full) that returns preserves Inv2, whatever the receiver (attached root: the whole subtree leaves the
+      registry and loses its parent slots; anything else: nothing happens).  No guard.  The same for detach_self. *)
+Theorem C18_inv_step_detach_partial : forall H ct s a s' b,
+  Inv2 H ct s -> step H ct s (ODetach a) = (s', RBool b) -> Inv2 H ct s'.
+Proof. exact inv2_step_detach_form. Qed.
+Theorem C18_inv2_step_detach_self_partial : forall H ct s a s' b,
+  Inv2 H ct s -> step H ct s (ODetachSelf a) = (s', RBool b) -> Inv2 H ct s'.
+Proof. exact inv2_step_detach_self_form. Qed.
+Example C18_inv_step_detach_example :
+  Inv2 Hid ct0 x_s3 /\ step Hid ct0 x_s3 x_o4 = (x_s4, RBool true) /\
+  detached x_s3 0 = false /\ detached x_s4 0 = true /\ detached x_s4 1 = true /\ parent x_s4 0 = None.
+Proof. exact x_example_detach. Qed.
+(*    a successful attach() preserves Inv2 under att_guard: the receiver exists, its stored subtree is a tree, no
+      detached node in it shares its id with one of its ancestors in it, and the cached content_id of every detached
+      node in it equals the digest of the rebuilt tree (tree_cid): the stale-digest finding C18:Attach:content-id is
+      exactly the failure of this last clause. *)
+Theorem C18_inv_step_attach_partial : forall H ct s a s',
+  Inv2 H ct s -> att_guard H ct s a -> step H ct s (OAttach a) = (s', RNone) -> Inv2 H ct s'.
+Proof. exact inv2_step_attach_form. Qed.
+Example C18_inv_step_attach_example :
+  Inv2 Hid ct0 x_s4 /\ att_guard Hid ct0 x_s4 1 /\ step Hid ct0 x_s4 x_o5 = (x_s5, RNone) /\
+  detached x_s4 0 = true /\ detached x_s5 0 = false /\ parent x_s5 0 = Some 1.
+Proof. exact x_example_attach. Qed.
+
+(* 4. a successful duplicate() preserves Inv2 in both modes, without any guard (the copies are fresh nodes built
+      bottom-up; with as_detached_clone=False every copied child is an attached root when its parent's copy is
+      constructed, so the guards of the constructor hold by themselves) *)
+Theorem C18_inv_step_duplicate_partial : forall H ct s a d s' r,
+  Inv2 H ct s -> step H ct s (ODuplicate a d) = (s', RNode r) -> Inv2 H ct s'.
+Proof. exact inv2_step_duplicate_form. Qed.
+Example C18_inv_step_duplicate_example :
+  Inv2 Hid ct0 x_s5 /\ step Hid ct0 x_s5 x_o6 = (x_s6, RNode 3) /\
+  List.length (heap x_s6) = 4 /\ parent x_s6 2 = Some 3 /\ parent x_s6 0 = Some 1.
+Proof. exact x_example_duplicate. Qed.
+(*    calculate_xpath() only writes _xpath: Inv2 survives whatever it returns or raises *)
+Theorem C18_inv_step_calc_xpath_partial : forall H ct s a s' ob,
+  Inv2 H ct s -> step H ct s (OCalcXpath a) = (s', ob) -> Inv2 H ct s'.
+Proof. exact inv2_step_calc_xpath. Qed.
+
+(* 5. replace() and replace_with(None) on a receiver WITHOUT a parent (attached root or detached node): then replace()
+      is detach_self + constructor under the receiver's id and replace_with(None) is detach().  Guards of replace: the
+      changed child values exist, and - when the receiver was attached - new_guard read after the receiver has left
+      the registry: the excluded input is exactly finding C18:Replace:child-detached (x.replace(f=x): the new node
+      holds the now detached receiver, which carries the new node's id).
+      With a parent, _replace_child stores the younger node in the parent's field (Rank is false afterwards) and
+      _reset_content_id walks the ancestors: NOT proved; neither is replace_with(node) nor the transformations. *)
+Theorem C18_inv_step_replace_root_partial : forall H ct s a ch s' r,
+  Inv2 H ct s -> parent s a = None ->
+  step H ct s (OReplace a ch) = (s', RNode r) ->
+  kids_live s (apply_changes (c_fs (cellD s a)) ch) ->
+  (detached s a = false -> new_guard H ct (fst (step H ct s (ODetachSelf a))) s' r) ->
+  Inv2 H ct s'.
+Proof. exact inv2_step_replace_root_form. Qed.
+Theorem C18_inv_step_replace_with_none_root_partial : forall H ct s a s',
+  Inv2 H ct s -> parent s a = None -> step H ct s (OReplaceWith a None) = (s', RNone) -> Inv2 H ct s'.
+Proof. exact inv2_step_replace_with_none_root. Qed.
+Example C18_inv_step_replace_root_example :
+  Inv2 Hid ct0 x_s8 /\ parent x_s8 1 = None /\ detached x_s8 1 = false /\
+  step Hid ct0 x_s8 x_o9 = (x_s9, RNode 5) /\
+  kids_live x_s8 (apply_changes (c_fs (cellD x_s8 1)) [(lit "opt", CV (FOne None))]) /\
+  new_guard Hid ct0 (fst (step Hid ct0 x_s8 (ODetachSelf 1))) x_s9 5 /\
+  detached x_s9 1 = true /\ parent x_s9 0 = Some 5 /\
+  guarded Hid ct0 x_s8 [x_o9; x_o10] /\ detached x_s10 3 = true /\ detached x_s10 2 = true.
+Proof. exact x_example_replace. Qed.
+
+(* 6. histories: every state of a history whose steps are all covered (step_guard: the operations above with their
+      guards and outcomes; a call that does not return leaves the state as it is) satisfies Inv2, hence Inv.
+      Covered besides the above: replace() / replace_with(None) of a parent-less receiver, and their rejections
+      ASTNodeReplaceError / ASTNodeReplaceWithError (state unchanged).
+      Missing for C18 itself: replace / replace_with(None) of a node that has a parent, replace_with(node),
+      ASTTransformVisitor, ASTTransformer, and the steps rejected while attaching - a history containing one of them
+      is not `guarded`. *)
+Theorem C18_inv_step_partial : forall H ct s o s' ob,
+  Inv2 H ct s -> step H ct s o = (s', ob) -> step_guard H ct s o s' ob -> Inv2 H ct s'.
+Proof. exact inv2_step. Qed.
+Theorem C18_inv_history_partial : forall H ct ops,
+  guarded H ct empty_st ops -> forall x, In x (trace H ct empty_st ops) -> Inv2 H ct x.
+Proof. exact inv2_history_empty. Qed.
+Theorem C18_inv_history_from_partial : forall H ct ops s,
+  Inv2 H ct s -> guarded H ct s ops -> forall x, In x (trace H ct s ops) -> Inv2 H ct x.
+Proof. exact inv2_history. Qed.
+(* premises inhabited: leaf; detach it; parent over the detached leaf; full detach; attach; duplicate;
+   calculate_xpath; a constructor rejected for duplicate children *)
+Example C18_inv_history_example :
+  guarded Hid ct0 empty_st x_ops /\ List.length (trace Hid ct0 empty_st x_ops) = 9 /\
+  List.length (heap x_s8) = 5 /\ detached x_s8 1 = false /\ parent x_s8 0 = Some 1 /\ parent x_s8 2 = Some 3.
+Proof. exact x_example_history. Qed.
